@@ -26,7 +26,7 @@ Two percentile functions appear, and every theorem says which one it is about:
 Not claimed (by design of the code, stated in the property plan): `duration` and `unit` read warm-up records too.
 -/
 namespace C08
-open Stats Dbl
+open Stats Dbl StatsDbl
 
 /-! ## 1. the linear-interpolation definition (ideal, exact rationals) -/
 
